@@ -2,7 +2,8 @@ import Driver.Common
 import GqlModel.Subscription
 /-! Driver for C15.
 in : {"req": {"kind":"stream","events":[[kind,n],…]} | {"kind":"oneShot","r":RES} | {"kind":"invalid","r":RES},
-      "key": response key of the root field (alias, default "tick"),
+      "key": response key of the root field (alias, default "tick"), "nonNull": the root field's type is non-null (a null
+      root field then nulls the whole data),
       "expect": [canonical result of event i, …] (optional; used by events of kind 99: [99,i]),
       "acts": ["produce"|"produceCtx"|"deliver"|"cancel"|"closeSource"|"observeCancel"|"finish"|"pause"|"resume"|"stop", …]}
      RES = {"t":"mapped","k":kind,"n":n} | {"t":"ctx"} | {"t":"opaque","s":"<canonical result>"}
@@ -11,7 +12,7 @@ out: {"valid":bool, "failedAt":index|null, "failedAct":name, "delivered":[canoni
       "enabled":[action names enabled in the last state reached]}
 The model is run on the schedule; at the first action that is not enabled the run stops and the state reached so
 far is reported. Event kinds: 0 resolves, 1 the root field's resolver fails, 2 a nullable leaf fails, 3 a non-null
-leaf yields null; 4 nil, 5 empty map, 6 typed nil pointer, 7 false, 8 the int 0, 9 "", 10 empty slice (the root
+leaf yields null; 4 nil, 5 empty map, 6 typed nil pointer, 7 false, 8 the int 0, 9 "", 10 empty slice, 11 the root resolver panics, 12 the root resolver returns nil (the root
 resolver reports which of these it saw: 41,41,42,43,44,45,46 as `n`). Canonical result = {"data":…, "errs":[{"path":[…],"ctx":bool}…]} (messages dropped). -/
 open Lean GqlModel.Subscription
 
@@ -30,25 +31,33 @@ def cfg : Cfg E R := { exec := fun e => .mapped e.1 e.2, ctxErr := .ctx }
 def errEntry (path : List String) (isCtx : Bool) : Json :=
   Json.mkObj [("path", Json.arr (path.map Json.str).toArray), ("ctx", Json.bool isCtx)]
 
-def canonical (key : String) (expect : Array String) : R → Json
-  | .mapped 0 n => Json.mkObj [("data", Json.mkObj [(key, Json.mkObj [("n", Json.num (n : JsonNumber)), ("twice", Json.num ((2 * n : Nat) : JsonNumber)), ("must", Json.num 1)])]),
-                              ("errs", Json.arr #[])]
-  | .mapped 1 _ => Json.mkObj [("data", Json.mkObj [(key, Json.null)]), ("errs", Json.arr #[errEntry [key] false])]
-  | .mapped 2 n => Json.mkObj [("data", Json.mkObj [(key, Json.mkObj [("n", Json.num (n : JsonNumber)), ("twice", Json.null), ("must", Json.num 1)])]),
-                              ("errs", Json.arr #[errEntry [key, "twice"] false])]
+/-- the root field came back null because of the error at `path`: with a nullable root field the data is
+`{key: null}`, with a non-null one the null propagates and the whole data is null -/
+def rootNull (key : String) (nonNull : Bool) (paths : List (List String)) : Json :=
+  Json.mkObj [("data", if nonNull then Json.null else Json.mkObj [(key, Json.null)]),
+              ("errs", Json.arr (paths.map (fun p => errEntry p false)).toArray)]
+
+def tickObj (n : Nat) (twice : Json) : Json :=
+  Json.mkObj [("n", Json.num (n : JsonNumber)), ("twice", twice), ("must", Json.num 1)]
+
+def canonical (key : String) (nonNull : Bool) (expect : Array String) : R → Json
   | .mapped 99 n =>
     -- subscription with variables: the reference result of event n (the same selection executed on the event
     -- with the raw variables), supplied with the request
     (match Json.parse (expect.getD n "\"missing reference\"") with
      | .ok j => j
      | .error _ => Json.str "unparsable reference")
-  | .mapped 3 _ => Json.mkObj [("data", Json.mkObj [(key, Json.null)]), ("errs", Json.arr #[errEntry [key, "must"] false])]
+  | .mapped 0 n => Json.mkObj [("data", Json.mkObj [(key, tickObj n (Json.num ((2 * n : Nat) : JsonNumber)))]), ("errs", Json.arr #[])]
+  | .mapped 1 _ => rootNull key nonNull [[key]]                 -- the root resolver returns an error
+  | .mapped 2 n => Json.mkObj [("data", Json.mkObj [(key, tickObj n Json.null)]), ("errs", Json.arr #[errEntry [key, "twice"] false])]
+  | .mapped 3 _ => rootNull key nonNull [[key, "must"]]         -- a non-null leaf yields null
+  | .mapped 11 _ => rootNull key nonNull [[key]]                -- the root resolver panics
+  | .mapped 12 _ => rootNull key nonNull (if nonNull then [[key]] else [])  -- the root resolver returns nil
   | .mapped k _ =>
     -- closure look-alike payloads: the root resolver reports what it was given (nil arrives as an empty map)
     let code : Nat := match k with
       | 4 => 41 | 5 => 41 | 6 => 42 | 7 => 43 | 8 => 44 | 9 => 45 | _ => 46
-    Json.mkObj [("data", Json.mkObj [(key, Json.mkObj [("n", Json.num (code : JsonNumber)), ("twice", Json.num ((2 * code : Nat) : JsonNumber)), ("must", Json.num 1)])]),
-                ("errs", Json.arr #[])]
+    Json.mkObj [("data", Json.mkObj [(key, tickObj code (Json.num ((2 * code : Nat) : JsonNumber)))]), ("errs", Json.arr #[])]
   | .ctx => Json.mkObj [("data", Json.null), ("errs", Json.arr #[errEntry [] true])]
   | .opaque s => match Json.parse s with
     | .ok j => j
@@ -98,6 +107,9 @@ def handle (j : Json) : Except String Json := do
   let key := match Driver.getOpt j "key" with
     | some (.str k) => k
     | _ => "tick"
+  let nonNull := match Driver.getOpt j "nonNull" with
+    | some (.bool b) => b
+    | _ => false
   let expect ← match Driver.getOpt j "expect" with
     | some a => (← a.getArr?).mapM (fun x => x.getStr?)
     | none => pure #[]
@@ -109,7 +121,7 @@ def handle (j : Json) : Except String Json := do
     ("valid", Json.bool failed.isNone),
     ("failedAt", match failed with | none => Json.null | some i => Json.num i),
     ("failedAct", match failed with | none => Json.null | some i => Json.str (names.getD i "")),
-    ("delivered", Json.arr (s.delivered.map (canonical key expect)).toArray),
+    ("delivered", Json.arr (s.delivered.map (canonical key nonNull expect)).toArray),
     ("closed", Json.bool s.closedSeen), ("alive", Json.bool s.goroutineAlive),
     ("terminal", Json.bool (s.terminal cfg)), ("cancelled", Json.bool s.cancelled),
     ("fwd", Json.str fwd), ("consumer", Json.str cons), ("pending", Json.num s.pending.length),
